@@ -1263,6 +1263,44 @@ theorem ftCarrier_floatTime (F : Bptk.C05.Fl) (G : Bptk.C05.Grid) (N : ℕ) :
 example : GridOKN (ftCarrier Bptk.C05.flW Bptk.C05.G01 4) 4 :=
   gridOKN_of_C05 _ Bptk.C05.flW Bptk.C05.G01 4 (1/500) id (ftCarrier_floatTime _ _ _) Bptk.C05.budget_W
 
+/-! ## Wave 6: lookup is a pure function of (x, table) -/
+
+/-- **no hidden state**: every lookup of every history returns the table's clamped linear interpolation at its own argument -/
+def LookupPure (c : LCfg) : Prop :=
+  ∀ (pts : List (Rat × Rat)) (st : Nat) (xs : List Rat), lookupRun c pts st xs = xs.map (lookup pts)
+
+theorem lookup_pure (c : LCfg) (h : c.lookupStateless = true) : LookupPure c := by
+  intro pts st xs
+  induction xs generalizing st with
+  | nil => simp [lookupRun]
+  | cons x xs ih => simp [lookupRun, h, ih]
+
+/-- consequence in the property's words: the value of a lookup does not depend on what was looked up before it -/
+theorem lookup_history_independent (c : LCfg) (h : c.lookupStateless = true) (pts : List (Rat × Rat))
+    (st st' : Nat) (before before' : List Rat) (x : Rat) :
+    (lookupRun c pts st (before ++ [x])).getLast? = (lookupRun c pts st' (before' ++ [x])).getLast? := by
+  rw [lookup_pure c h pts st, lookup_pure c h pts st']
+  simp
+
+/-- the witness table: y = x² on 0..4 -/
+def sqTable : List (Rat × Rat) := [(0, 0), (1, 1), (2, 4), (3, 9), (4, 16)]
+
+/-- **a remembered segment breaks the lookup specification**: after a lookup at 7/2 (segment 3..4), a lookup at 1/2 searches
+upwards from the remembered segment and extrapolates the line through (2,4),(3,9): −7/2 instead of 1/2 -/
+theorem lookup_stateful_example : lookupRun ⟨false⟩ sqTable 0 [7/2, 1/2] = [25/2, -7/2] ∧
+    [(7/2 : Rat), 1/2].map (lookup sqTable) = [25/2, 1/2] := by decide +kernel
+
+theorem C01_witness_lookup_stateful (c : LCfg) (h : c.lookupStateless = false) : ¬ LookupPure c := by
+  intro hp
+  have hc : c = ⟨false⟩ := by cases c; simp_all
+  subst hc
+  have := hp sqTable 0 [7/2, 1/2]
+  rw [lookup_stateful_example.1, lookup_stateful_example.2] at this
+  exact absurd this (by decide +kernel)
+
+/-- and the same history is right when nothing is remembered (the lookup theorems `lookup_left/right/segment` describe it) -/
+example : lookupRun ⟨true⟩ sqTable 0 [7/2, 1/2] = [25/2, 1/2] := by decide +kernel
+
 /-- **C01 at full strength** for the operator tables `Tt` (probed at `t`) and `Tdt` (probed at
 `t - model.dt`): for every equation tree, every element kind, every solution and every step. -/
 def C01_full (Tt Tdt : Table) : Prop :=
@@ -1326,6 +1364,9 @@ theorem C01_full_of_tables (Tt Tdt : Table) (h1 : tableOK L Tt = true) (h2 : tab
 #print axioms stock_euler_exact_theSol
 #print axioms flow_clamped_theSol
 #print axioms demo_acyclic
+#print axioms lookup_pure
+#print axioms lookup_history_independent
+#print axioms C01_witness_lookup_stateful
 #print axioms acyclic_of_modelOKb
 #print axioms euler_of_modelOKb
 #print axioms stock_euler_theSol_C05
